@@ -592,3 +592,69 @@ class WriteStructField_word:
         return (len(_trace) == 2 and _trace[0] == ("struct_field_of", struct_name, field_name)
                 and _trace[1][0] == "write" and _trace[1][1] == g_addr and tuple(_trace[1][3:]) == (x, y, p)
                 and seq_len(d) == 4 and all(select(d, i) == (values // (256 ** i)) % 256 for i in range(4)))
+
+
+# ---- the advertised buffer size: asked of the machine's root monitor, once, and only a real answer is remembered ------------------------
+from pyvc.values import TBool   # noqa: E402
+def _gsv_ext(E, obj, args, kwargs, st, node):
+    import z3 as _z3
+    from pyvc.engine import Raised
+    from pyvc.values import ListV, ObjV, ExcV
+    s = st.copy()
+    s.trace = ListV(s.trace.items + (("get_software_version",) + tuple(args),))
+    ok = s.assume(_z3.Not(st.env["g_probe_fails"]))
+    bad = s.assume(st.env["g_probe_fails"])
+    return [(ok, ObjV("CoreInfo", {"buffer_size": st.env["g_advertised"]}), None), (bad, Raised(ExcV("SCPError", ())), None)]
+
+
+@contract("rig/machine_control/machine_controller.py::MachineController.scp_data_length")
+class ScpDataLength:
+    """the size every memory command is cut to: a size already known is used as it is and nothing is sent; an unknown size is
+    asked of the root monitor (255, 255, 0) - the core that executes the memory commands - and what IT advertises is returned
+    and remembered; when the question fails the size stays unknown (it is asked again next time), nothing is guessed"""
+    properties = ("C07", "C14")
+    params = dict(self=_TRec7("MachineController", _scp_data_length=_TOpt7(TInt(1, None))), g_advertised=TInt(1, 65535), g_probe_fails=TBool())
+    result = TInt()
+    externals = {"MachineController.get_software_version": _gsv_ext}
+    options = {"decorators": {"property": "identity"}}
+    assumptions = ["get_software_version (its decoding of the version reply: contract SoftwareVersion in C14) is recorded: it returns the advertised size (ghost) or raises SCPError"]
+
+    def native(self, g_advertised, g_probe_fails):
+        from rig.machine_control.machine_controller import MachineController, SCPError
+        import collections
+        mc = MachineController.__new__(MachineController)
+        mc._scp_data_length = self._scp_data_length
+        calls = []
+
+        def gsv(*a, **k):
+            calls.append(a)
+            if g_probe_fails:
+                raise SCPError("no answer")
+            return collections.namedtuple("CoreInfo", "buffer_size")(g_advertised)
+        mc.get_software_version = gsv
+        try:
+            result, raised = mc.scp_data_length, None
+        except SCPError:
+            result, raised = None, "SCPError"
+        return {"__native__": True, "result": result, "raised": raised, "calls": calls, "after": mc._scp_data_length}
+
+    def native_check(inputs, out):
+        known = inputs["self"]._scp_data_length
+        bad = []
+        if out["raised"] is None:
+            want = known if known is not None else inputs["g_advertised"]
+            if out["result"] != want or out["after"] != want or out["calls"] != ([] if known is not None else [(255, 255, 0)]):
+                bad.append("known_size_used_else_the_root_monitors_answer_remembered")
+        elif out["after"] is not None or known is not None or out["calls"] != [(255, 255, 0)]:
+            bad.append("SCPError")
+        return bad
+
+    def ensures_known_size_used_else_the_root_monitors_answer_remembered(self, self_post, g_advertised, result, _trace):
+        known = self._scp_data_length is not None
+        return (implies(known, result == unopt(self._scp_data_length) and len(_trace) == 0 and self_post._scp_data_length == self._scp_data_length)
+                and implies(not known, len(_trace) == 1 and _trace[0] == ("get_software_version", 255, 255, 0) and result == g_advertised
+                            and self_post._scp_data_length is not None and unopt(self_post._scp_data_length) == g_advertised))
+
+    def raises_SCPError(self, self_post, g_probe_fails, _trace):
+        return (self._scp_data_length is None and g_probe_fails and len(_trace) == 1 and _trace[0] == ("get_software_version", 255, 255, 0)
+                and self_post._scp_data_length is None)
